@@ -156,6 +156,9 @@ static void check_freed(int k, ABTI_thread *p, int was_malloc, const char *what)
     abtmc_check(th[k] == null_h, "handle_not_null",
                 "%s did not set the handle of target %d to NULL", what, k);
     check_joined(k, ABT_THREAD_NULL, what);
+#ifdef ABTMC_NO_MEM_POOL
+    was_malloc = 1; /* mc-asan-nopool flavour: every descriptor is malloc'ed */
+#endif
     if (was_malloc) {
         abtmc_check(!abtmc_ledger_find(p, NULL, NULL), "not_released",
                     "%s returned but the malloc'ed descriptor+stack of target "
